@@ -489,14 +489,7 @@ pub fn check_pool_history(case: &HistoryCase, l: &mut Local) -> Result<(), Strin
     Ok(())
 }
 
-fn tf_strategy() -> BoxedStrategy<Option<(u16, u64)>> {
-    prop_oneof![
-        1 => Just(None),
-        6 => (prop::sample::select(vec![0u16, 1, 100, 250, 5000, 9999, 10000]), prop_oneof![1 => Just(0u64), 2 => 1u64..5000, 2 => gen::bits_u64(40), 1 => Just(u64::MAX)]).prop_map(Some),
-        2 => (0u16..=10000, gen::bits_u64(64)).prop_map(Some),
-    ]
-    .boxed()
-}
+use crate::history::tf_strategy;
 
 fn pool_history_case() -> BoxedStrategy<HistoryCase> {
     (history_strategy(false, false, 30), tf_strategy(), tf_strategy())
